@@ -14,7 +14,7 @@ import (
 )
 
 func init() {
-	register(&Rule{ID: "PAR-1", Props: []string{"C08"}, Floor: 3,
+	register(&Rule{ID: "PAR-1", Props: []string{"C08", "C03"}, Floor: 3,
 		Doc: "token-kind agreement: kinds tested by canAtom = kinds opening a case of atom; those plus the kinds consumed elsewhere = all declared kinds", Run: par1})
 	register(&Rule{ID: "PAR-2", Props: []string{"C03", "C08"}, Floor: 8,
 		Doc: "consumption typestate: atom consumes on every normal return; back() only on the way to a panic; a panic about a consumed token is preceded by exactly one back()", Run: par2})
